@@ -641,6 +641,7 @@ func (fc *FuncCtx) enterLoop(li *loopInfo, st *State, reach string) *State {
 		fc.assume(reach, fc.evalBool(env2, inv.E))
 	}
 	li.headSt = hs.clone()
+	fc.probe(fmt.Sprintf("vacuity/%s-head-reachable", fc.loopName(li)), reach)
 	if li.Spec.Decreases != nil {
 		v := fc.evalInt(env2, li.Spec.Decreases.E)
 		li.variant = fc.define("Int", v, "variant")
@@ -725,6 +726,14 @@ func (fc *FuncCtx) backEdge(from *ssa.BasicBlock, li *loopInfo, st *State, cond 
 		v := fc.evalInt(env, li.Spec.Decreases.E)
 		fc.oblige(fmt.Sprintf("%s/decreases%s", fc.loopName(li), suffix), "decreases", cond, "(and (<= 0 "+li.variant+") (< "+v+" "+li.variant+"))", token.NoPos, li.Spec.Decreases.Text)
 	}
+}
+
+// probe adds a vacuity probe: the assumptions made so far on this path must not be contradictory.
+func (fc *FuncCtx) probe(name, reach string) {
+	if fc.sandbox > 0 || reach == "false" {
+		return
+	}
+	fc.obls = append(fc.obls, &Obligation{Name: fc.Key + "/" + name, Func: fc.Key, Kind: "vacuity", Goal: "false", Reach: reach, N: len(fc.script), fc: fc, Text: "probe: the path condition and assumptions must be satisfiable"})
 }
 
 // applyHints proves each hint at the current point and then assumes it. A hint
